@@ -9,7 +9,8 @@ CONSTANTS
   Eager = FALSE
   CloseErr = TRUE
   Defect_LateCloseUnderLock = TRUE
+  Defect_NoJoin = FALSE
   Defect_AddDeadConn = FALSE
   Mut = "none"
-INVARIANTS TypeOK NoSelfDeadlock SizeBound OneFiller ClosedEmpty ReportedNotInPool NoStray NoLeakAfterClose
+INVARIANTS TypeOK NoSelfDeadlock FillJoin SizeBound OneFiller ClosedEmpty ReportedNotInPool NoStray NoLeakAfterClose
 CHECK_DEADLOCK FALSE
